@@ -35,6 +35,12 @@ def main(argv):
 			chk.case(runner, spec, stratum="replay")
 		else:
 			mod.run(chk)
+		pool = sys.modules.get("serifmon.props.pool")
+		if pool is not None and pool.CENSUS.installed:
+			# hook activation counts (evidence that the run-time hooks were live)
+			chk.counters["hook:Vector.__init__(census)"] = pool.CENSUS.created
+			for k, v in pool.TRACKER_EVENTS.items():
+				chk.counters["hook:_AliasTracker." + k] = v
 		res.update(chk.result())
 		if hasattr(mod, "REQUIRED_STRATA"):
 			res["required_strata"] = mod.REQUIRED_STRATA(chk) if callable(mod.REQUIRED_STRATA) else mod.REQUIRED_STRATA
